@@ -3,7 +3,7 @@
  * Monitor: shadow bookkeeping of the stored model (nclass, class_start, priors, class means), long-double
  * replay of the stored discriminant  f_k(x) = mu_k' C x - 1/2 mu_k' C mu_k + ln(prior_k)  from the model's own
  * fields, arg-max -> label relation for 0- and 1-based labels, zero errors for well separated classes
- * (>= 10 sigma, noise truncated at 3 sigma), metamorphic pairs (x -> A x + c on train and test; row permutation
+ * (>= 10 sigma, noise truncated at 3 sigma; test objects when the covariance has >= 3 d.o.f. per feature), metamorphic pairs (x -> A x + c on train and test; row permutation
  * of the training set) on the score differences f_k - f_0, LDAMulticlassStatistics(y, y).  asan build.
  *
  * Tolerance of the metamorphic pairs.  The library inverts its "covariance" T (scatter about the grand mean,
@@ -22,6 +22,9 @@
 #define EPS DBL_EPSILON
 #define KTOL 100.0
 #define MAXK 5
+
+/* exported by lda.c (used by the bindings) but missing from lda.h */
+void LDAError(matrix *mx, matrix *my, LDAMODEL *lda, dvector *sens, dvector *spec, dvector *ppv, dvector *npv, dvector *acc);
 
 static long ncases(int tier) { return tier ? 60000 : 1500; }
 
@@ -69,23 +72,44 @@ static void fitres_free(fitres *f)
   DelLDAModel(&f->lda);
 }
 
-/* conditioning of the data set as the library sees it: total covariance about the grand mean */
+/* conditioning of the data set: T = total covariance about the grand mean (what the library inverts on this tree:
+   class blocks centred on the grand mean, weighted by class frequency) and W = the same sum centred on the class
+   means (the pooled within-class covariance the property names).  The unit is the larger of the two, so the
+   tolerance does not depend on which of them an implementation inverts. */
 typedef struct { ld lmin, lmax, kappa, rraw, rcen, unit; int svd_path, snap; } cond;
+
+static ld unit_of(const ldm *S, ld r2, ld *kappa, ld *lmin, ld *lmax, int *svd)
+{
+  size_t p = S->r, j;
+  ldm *V = ldm_new(p, p);
+  ld *ev = calloc(p, sizeof(ld)), ss = 0, u;
+  or_jacobi_eig(S, ev, V);
+  *lmax = ev[0]; *lmin = ev[p - 1]; *kappa = ev[p - 1] > 0 ? ev[0] / ev[p - 1] : INFINITY;
+  for (j = 0; j < p; j++) ss += 1 / (ev[j] * ev[j]);
+  *svd = ss < 2e-3L;                                         /* library: ||inv||_F^2 < 1e-3 -> pseudo-inversion through SVD */
+  u = EPS * (*svd ? *kappa * *kappa : *kappa) * r2 / *lmin;
+  ldm_free(V); free(ev);
+  return u;
+}
 
 static void cond_of(const dset *tr, const dset *te, cond *q)
 {
-  size_t n = tr->n, p = tr->p, i, j, k, s;
-  ldm *T = ldm_new(p, p), *V = ldm_new(p, p);
-  ld *m = calloc(p, sizeof(ld)), *ev = calloc(p, sizeof(ld)), *cs = calloc(p * (tr->K + 1), sizeof(ld)), ss = 0;
-  for (i = 0; i < n; i++) for (j = 0; j < p; j++) { m[j] += LM(tr->X, i, j); cs[j] += LM(tr->X, i, j); cs[(1 + (size_t)tr->cls[i]) * p + j] += LM(tr->X, i, j); }
+  size_t n = tr->n, p = tr->p, K = tr->K, i, j, k, s;
+  ldm *T = ldm_new(p, p), *W = ldm_new(p, p);
+  ld *m = calloc(p, sizeof(ld)), *cs = calloc(p * (K + 1), sizeof(ld)), r2, uw, kw, lminw, lmaxw;
+  size_t cnt[MAXK] = { 0 };
+  int svdw;
+  for (i = 0; i < n; i++) { cnt[tr->cls[i]]++; for (j = 0; j < p; j++) { m[j] += LM(tr->X, i, j); cs[(1 + (size_t)tr->cls[i]) * p + j] += LM(tr->X, i, j); } }
+  for (j = 0; j < p; j++) cs[j] = m[j];
   q->snap = 0;
-  for (j = 0; j < p * (tr->K + 1); j++) if (fabsl(cs[j]) < 1e-5L) q->snap = 1;     /* MatrixColAverage zeroes |sums| < 1e-6 by design */
+  for (j = 0; j < p * (K + 1); j++) if (fabsl(cs[j]) < 1e-5L) q->snap = 1;        /* MatrixColAverage zeroes |sums| < 1e-6 by design */
   for (j = 0; j < p; j++) m[j] /= (ld)n;
-  for (i = 0; i < n; i++) for (j = 0; j < p; j++) for (k = 0; k < p; k++) LM(T, j, k) += (LM(tr->X, i, j) - m[j]) * (LM(tr->X, i, k) - m[k]) / (ld)n;
-  or_jacobi_eig(T, ev, V);
-  q->lmax = ev[0]; q->lmin = ev[p - 1]; q->kappa = ev[p - 1] > 0 ? ev[0] / ev[p - 1] : INFINITY;
-  for (j = 0; j < p; j++) ss += 1 / (ev[j] * ev[j]);
-  q->svd_path = ss < 2e-3L;                                  /* library: ||inv||_F^2 < 1e-3 -> pseudo-inversion through SVD */
+  for (k = 0; k < K; k++) for (j = 0; j < p; j++) cs[(1 + k) * p + j] /= (ld)(cnt[k] ? cnt[k] : 1);
+  for (i = 0; i < n; i++) for (j = 0; j < p; j++) for (k = 0; k < p; k++) {
+    const ld *cm = cs + (1 + (size_t)tr->cls[i]) * p;
+    LM(T, j, k) += (LM(tr->X, i, j) - m[j]) * (LM(tr->X, i, k) - m[k]) / (ld)n;
+    LM(W, j, k) += (LM(tr->X, i, j) - cm[j]) * (LM(tr->X, i, k) - cm[k]) / (ld)n;
+  }
   q->rraw = q->rcen = 0;
   for (s = 0; s < 2; s++) {
     const dset *d = s ? te : tr;
@@ -96,8 +120,12 @@ static void cond_of(const dset *tr, const dset *te, cond *q)
       if (sqrtl(b) > q->rcen) q->rcen = sqrtl(b);
     }
   }
-  q->unit = EPS * (q->svd_path ? q->kappa * q->kappa : q->kappa) * (q->rraw + q->rcen) * (q->rraw + q->rcen) / q->lmin;
-  ldm_free(T); ldm_free(V); free(m); free(ev); free(cs);
+  r2 = (q->rraw + q->rcen) * (q->rraw + q->rcen);
+  q->unit = unit_of(T, r2, &q->kappa, &q->lmin, &q->lmax, &q->svd_path);
+  uw = unit_of(W, r2, &kw, &lminw, &lmaxw, &svdw);
+  if (!(uw <= q->unit)) q->unit = uw;
+  if (!(kw <= q->kappa)) q->kappa = kw;
+  ldm_free(T); ldm_free(W); free(m); free(cs);
 }
 
 /* clauses on one fitted model + its predictions; returns 0 when the outputs cannot be used further */
@@ -284,7 +312,12 @@ static void run_case(vh_ctx *c)
   /* well separated classes: no training and no test error; the library's own error table agrees */
   if (sepmode == 2) {
     int s; size_t wrong = 0;
-    for (s = 0; s < 2; s++) {
+    /* test objects are judged when the covariance estimate has at least 3 degrees of freedom per feature: with fewer
+       (e.g. 4+4 objects in 6 features) the sample covariance is barely non-singular and no discriminant rule can
+       promise an error-free test set; the training objects are always judged */
+    int judge_test = tr.n - K >= 3 * p;
+    vh_obs(judge_test ? "separated_cases_test_set_judged" : "separated_cases_test_set_not_judged_few_degrees_of_freedom", 1);
+    for (s = 0; s < (judge_test ? 2 : 1); s++) {
       dset *d = s ? &te : &tr;
       for (i = 0; i < d->n; i++) if (f0.pred[s]->data[i][0] != (double)(d->cls[i] + cs)) {
         if (!wrong++) {
@@ -294,7 +327,7 @@ static void run_case(vh_ctx *c)
       }
     }
     vh_obs("separated_cases", 1);
-    if (!wrong) {
+    if (!wrong && judge_test) {
       dvector *se, *sp, *pp, *np, *ac;
       initDVector(&se); initDVector(&sp); initDVector(&pp); initDVector(&np); initDVector(&ac);
       LDAError(te.mx, te.my, f0.lda, se, sp, pp, np, ac);
@@ -371,6 +404,7 @@ static void run_case(vh_ctx *c)
     matrix *y0, *y1;
     dvector *ra, *pa; tensor *roc, *prc;
     int use_pred = sepmode == 2 && vh_coin(c, 0.5), with_curves = vh_coin(c, 0.5);
+    if (use_pred) for (i = 0; i < tr.n; i++) if (f0.pred[0]->data[i][0] != (double)(tr.cls[i] + cs)) use_pred = 0;   /* only perfect predictions are in the clause */
     size_t want = K == 2 ? 1 : K;
     NewMatrix(&y0, tr.n, 1); NewMatrix(&y1, tr.n, 1);
     for (i = 0; i < tr.n; i++) { y0->data[i][0] = (double)tr.cls[i]; y1->data[i][0] = use_pred ? f0.pred[0]->data[i][0] - cs : (double)tr.cls[i]; }
